@@ -17,7 +17,7 @@ import ast, hashlib, json, os, sys, tempfile, warnings
 
 import common
 from common import sexp, parse_sexp
-import c08_gen, c08_real, c08_sym, c08_trace, progen
+import c08_gen, c08_real, c08_reanalysis, c08_sym, c08_trace, progen
 
 MODEL_FILES = ['MaltModel/Analysis/QualNames.lean', 'MaltModel/Analysis/Activity.lean', 'MaltModel/Analysis/ActivityFn.lean',
                'MaltModel/Analysis/ActivityHyp.lean', 'MaltModel/Spec/Symtable.lean', 'MaltModel/Spec/Dynamic.lean',
@@ -495,6 +495,67 @@ def repo_correspondence(run, stats):
     return dis, tdis['thm-frees']
 
 
+def reanalysis_slice(run, stats, cases, only=None):
+    """Freshness / idempotence of the analysis on trees that carry annotations of an earlier run (see c08_reanalysis).
+    `only`: (source, edit kind, seed) of a replayed failing input."""
+    todo = []
+    if only is not None:
+        todo.append(only)
+    else:
+        n_gen, n_repo = (450, 300) if run.tier == 'quick' else (3000, 10 ** 9)
+        srcs = [c.src for c in cases if c.kind in ('chain', 'random')]
+        step = max(1, len(srcs) // n_gen)
+        picked = srcs[run.seed % step::step][:n_gen]
+        repo = [ast.unparse(rf.node) for rf in progen.repo_functions()]
+        rstep = max(1, len(repo) // n_repo)
+        picked += repo[run.seed % rstep::rstep][:n_repo]
+        for k, src in enumerate(picked):
+            todo.append((src, c08_reanalysis.EDITS[k % len(c08_reanalysis.EDITS)], run.seed * 100003 + k))
+    results, lines = [], []
+    for src, kind, seed in todo:
+        try:
+            body = ast.parse(src).body
+        except SyntaxError:
+            continue
+        fns = [n for n in body if isinstance(n, ast.FunctionDef)]
+        if not fns:
+            continue
+        with warnings.catch_warnings():
+            warnings.simplefilter('ignore')
+            r = c08_reanalysis.reanalyse(fns[-1], kind, seed)
+        r.seed = seed
+        if r.aside:
+            stats['reanalysis_set_aside:' + r.aside.split(':')[0]] = stats.get('reanalysis_set_aside:' + r.aside.split(':')[0], 0) + 1
+            continue
+        stats['reanalysis_trees:' + kind] = stats.get('reanalysis_trees:' + kind, 0) + 1
+        run.case('re:%s:%s' % (kind, hashlib.sha1((src + str(seed)).encode()).hexdigest()[:12]), nontrivial=bool(r.mapping))
+        results.append(r)
+        if r.model_comparable and run.driver_ok:
+            lines.append('c08.activity ' + r.ser_text)
+    answers = run.drive(lines) if (lines and run.driver_ok) else []
+    dis, ai = [], 0
+    for r in results:
+        case = {'source': r.source, 'call': '', 'runnable': False, 'kind': 'reanalysis', 'edit': r.kind, 'seed': r.seed,
+                'mapping': r.mapping}
+        run.evaluations += 1
+        if not r.idempotent:
+            d = first_difference(r.source, r.first_text, r.second_text)
+            run_fail(run, stats, 'analysing the same tree twice gives different results', dict(case, observation=['idempotence', d.get('node'), d.get('key')]), None)
+            dis.append(dict(d, what='idempotence'))
+        if r.re_text != r.fresh_text:
+            d = first_difference(r.edited_source, r.re_text, r.fresh_text)
+            run_fail(run, stats, 'after the annotation-preserving edit %r (%s) the re-run analysis differs from the analysis of the '
+                     'same program parsed afresh: node %s/%s' % (r.kind, r.mapping, d.get('node'), d.get('key')),
+                     dict(case, edited_source=r.edited_source, observation=['stale-annotations', d.get('node'), d.get('key')]), None)
+            dis.append(dict(d, what='re-analysis vs fresh parse', edit=r.kind, mapping=r.mapping))
+        if r.model_comparable and run.driver_ok:
+            a = answers[ai]; ai += 1
+            run.evaluations += 1
+            if a != r.re_text and r.re_text == r.fresh_text:
+                dis.append(dict(first_difference(r.edited_source, r.re_text, a), what='re-analysis vs model'))
+    return dis
+
+
 def check(run, only_case=None):
     run.rule = ('function trees: (a) bounded-exhaustive chains f > block > block (blocks: def, class, lambda, list/set/dict '
                 'comprehension, generator expression) with one binding/using event on a contested name per block, from a list of '
@@ -540,6 +601,7 @@ def check(run, only_case=None):
         for k, v in dis0.items():
             dis[k] = v + dis.get(k, [])
         rdis, rfrees = repo_correspondence(run, stats) if only_case is None else ([], [])
+        redis = reanalysis_slice(run, stats, cases) if only_case is None else []
     finally:
         import shutil
         shutil.rmtree(workdir, ignore_errors=True)
@@ -555,6 +617,7 @@ def check(run, only_case=None):
         run.oblige('consistency:C08_dynamic_comp_lookup-on-real-code', 'correspondence', not dis['thm-dynamic'], json.dumps(dis['thm-dynamic'][:2]))
         tf = dis['thm-frees'] + (rfrees or [])
         run.oblige('consistency:C08_frees_nested-on-real-code', 'correspondence', not tf, json.dumps(tf[:2]))
+        run.oblige('correspondence:re-analysis-after-annotation-preserving-edits', 'correspondence', not redis, json.dumps(redis[:2]))
         run.oblige('correspondence:Spec.outerB=cpython-free-variables', 'correspondence', not dis['outer-symtable'],
                    json.dumps(dis['outer-symtable'][:2]))
     else:
@@ -574,6 +637,13 @@ def replay(run, path):
     c = rep.get('case') or {}
     if 'source' not in c:
         check(run)
+        return run.finish()
+    if c.get('kind') == 'reanalysis':
+        run.build_and_audit('MaltModel.Props.C08', model_files=MODEL_FILES)
+        stats = {}
+        redis = reanalysis_slice(run, stats, [], only=(c['source'], c.get('edit', 'rename'), int(c.get('seed', 0))))
+        run.oblige('correspondence:re-analysis-after-annotation-preserving-edits', 'correspondence', not redis, json.dumps(redis[:2]))
+        run.cov['stats'] = stats
         return run.finish()
     check(run, only_case=Case(c['source'], c.get('call', ''), bool(c.get('runnable')), 'replay'))
     return run.finish()
